@@ -338,6 +338,15 @@ RESTART:
 		return tmconsensus.HandleProposedHeaderBadPrevCommitProofPubKeyHash
 	}
 
+	// The header also has to build on the block we have at the previous height.
+	// If it names any other block as its predecessor,
+	// then whatever its previous commit proof holds,
+	// it cannot be a majority for our committing block.
+	if len(checkResp.PrevBlockHash) > 0 &&
+		!bytes.Equal(ph.Header.PrevBlockHash, checkResp.PrevBlockHash) {
+		return tmconsensus.HandleProposedHeaderBadPrevCommitVoteCount
+	}
+
 	// The PrevCommitProof should be in a finalized form,
 	// so we need to use the CommonMessageSignatureProofScheme to validate it.
 	// But in order to do so, we need to convert the PrevCommitProof to the finalized form.
